@@ -224,7 +224,6 @@ func vCutWrite(op, p string, n *vNode, data []byte) {
 		c := vPartialChoice(len(lens))
 		verifAssume(c < len(lens))
 		n.data = append(n.data, data[:lens[c]]...)
-		n.plan = nil
 	})
 }
 
@@ -311,7 +310,6 @@ func vCountPoints(f func()) int {
 type vNode struct {
 	dir  bool
 	data []byte
-	plan *plan.Plan // content of a plan file written through plan.WriteToFile
 }
 
 type vFSModel struct {
@@ -339,7 +337,7 @@ func (m *vFSModel) clone() *vFSModel {
 	c := &vFSModel{nodes: map[string]*vNode{}}
 	for _, k := range m.order {
 		n := m.nodes[k]
-		c.put(k, &vNode{dir: n.dir, data: append([]byte(nil), n.data...), plan: n.plan})
+		c.put(k, &vNode{dir: n.dir, data: append([]byte(nil), n.data...)})
 	}
 	return c
 }
@@ -776,11 +774,14 @@ func vDecodeMeta(b []byte) (*raft.SnapshotMeta, error) {
 	}, nil
 }
 
-// encoding/json.Marshal (of snapshot metadata only)
+// encoding/json.Marshal (of snapshot metadata and of plans only)
 func vJSONMarshal(v any) ([]byte, error) {
 	switch m := v.(type) {
 	case *raft.SnapshotMeta:
 		return vEncodeMeta(m), nil
+	case *plan.Plan:
+		vPlans = append(vPlans, vCopyPlan(m))
+		return vPlanBytes(len(vPlans) - 1), nil
 	}
 	panic("verif-fs: json.Marshal of an unmodelled type")
 }
@@ -967,32 +968,29 @@ func vCopyPlan(p *plan.Plan) *plan.Plan {
 	return c
 }
 
-// plan.WriteToFile: the plan value is stored in <path>.tmp, which is then renamed to <path>
-// (two mutating calls, two crash points, as in the real function).
-func vPlanWriteToFile(p *plan.Plan, path string) error {
-	tmp := path + ".tmp"
-	vPoint(vOpWriteFile, tmp)
-	n, err := vCreateFile(tmp)
-	if err != nil {
-		return err
-	}
-	vCutWrite(vOpWriteFile, tmp, n, []byte("{plan}"))
-	n.plan = vCopyPlan(p)
-	n.data = []byte("{plan}")
-	vPoint(vOpRename, tmp)
-	return vRename(tmp, path)
+// Plan files. plan.WriteToFile and plan.ReadFromFile are the REAL functions; only the JSON codec
+// is a model: json.Marshal of a plan keeps a copy of the plan VALUE in a table and returns the bytes
+// "{plan <k>}" naming it; json.Unmarshal into a plan accepts exactly such bytes (a prefix left by
+// a cut write is undecodable, like a prefix of a JSON object).
+var vPlans []*plan.Plan
+
+func vPlanBytes(k int) []byte {
+	return []byte{'{', 'p', 'l', 'a', 'n', ' ', byte('0' + k/10), byte('0' + k%10), '}'}
 }
 
-// plan.ReadFromFile
-func vPlanReadFromFile(path string) (*plan.Plan, error) {
-	n := vFS.file(path)
-	if n == nil {
-		return nil, vErrNotExist
+// encoding/json.Unmarshal (into a plan only)
+func vJSONUnmarshal(data []byte, v any) error {
+	p, ok := v.(*plan.Plan)
+	if !ok {
+		panic("verif-fs: json.Unmarshal into an unmodelled type")
 	}
-	if n.plan == nil {
-		return nil, vErrBadData
+	for k, q := range vPlans {
+		if bytes.Equal(data, vPlanBytes(k)) {
+			*p = *vCopyPlan(q)
+			return nil
+		}
 	}
-	return vCopyPlan(n.plan), nil
+	return vErrBadData
 }
 
 // ---------------------------------------------------------------- both worlds
@@ -1008,6 +1006,7 @@ func vMust(err error) {
 // (which are the models above in the symbolic run).
 func vNewRoot(tag string) string {
 	vPartialLog = nil
+	vPlans = nil
 	if verifSymbolic() {
 		root := "/" + tag
 		vFS = vNewFS(root)
